@@ -109,6 +109,10 @@ def programs():
                          "p": pt.einsum("ijk,ijk->i", pt.reshape(c, (2, 1, 4), order="F"), b),
                          "q": pt.einsum("ijk,ijk->jk", pt.reshape(a, (2, 1, 4), order="C"), b),
                          "r": pt.einsum("ij,ij->i", pt.reshape(c, (8, 1), order="F"), pt.reshape(b, (8, 3), order="F"))})
+    # complex operands: real/imag/conj are additive but not linear over the complex numbers
+    reg("complex_parts", {"w": (2,)},
+        lambda w: (lambda A, z: {"cj": A @ pt.conj(z + w), "re": A @ (pt.real(z) + w), "im": A @ (pt.imag(z) - w)})(
+            pt.make_placeholder("Ac", (2, 2), np.complex128), pt.make_placeholder("zc", (2,), np.complex128)))
     reg("sum_of_three", {"A": (2, 2), "x": (2,), "y": (2,), "z": (2,)}, lambda A, x, y, z: {"o": A @ (x + y + z)})
     # operations on the distribution path that are NOT linear: nothing may be pushed through them
     # (one program per three outputs: every subset of einsums gets its own distribution policy)
@@ -294,9 +298,13 @@ class RewriteOb(SmtOb):
         """numeric: evaluate both real DAGs with NumPy scalars on the model's values
         (and on two generic inputs) -- scale-aware tolerance"""
         inputs = {}
+        dts = self.info.get("input_dtypes", {})
         for k in self.info["inputs"]:
             shp = tuple(self.info["inputs"][k])
-            inputs[k] = C.default_data(k, shp, F64) + 0.0
+            # (complex inputs: the solver reasons over a commutative field with conj/real/imag uninterpreted, which is
+            #  sound for "unsat"; a sat model has real values only, so the replay gives complex inputs a generic
+            #  imaginary part)
+            inputs[k] = C.default_data(k, shp, np.dtype(dts.get(k, "float64"))) + 0.0
         trials = [dict((k, v.copy()) for k, v in inputs.items())]
         mod = {k: v.copy() for k, v in inputs.items()}
         for key, val in (args.get("model") or {}).items():
@@ -316,8 +324,9 @@ class RewriteOb(SmtOb):
                         continue
                     scale = max(1.0, float(np.max([np.max(np.abs(v)) for v in data.values()])) ** 2)
                     if not num_close(a, b, rtol=1e-7, atol=1e-9, scale=scale):
-                        return True, {"output": k, "index": list(idx), "original": float(a), "rewritten": float(b),
-                                      "inputs": {n: v.tolist() for n, v in data.items()}}
+                        return True, {"output": k, "index": list(idx), "original": complex(a) if np.iscomplexobj(a) else float(a),
+                                      "rewritten": complex(b) if np.iscomplexobj(b) else float(b),
+                                      "inputs": {n: (v.tolist() if not np.iscomplexobj(v) else str(v.tolist())) for n, v in data.items()}}
         return False, {"why": "sat over the reals with uninterpreted inv(), but numerically equal (abstraction)"}
 
 
@@ -335,6 +344,7 @@ def distribute_job(prog: str, seed: int = 0, gen_tier: str = "quick") -> JobOut:
     n_declined = 0
     shapes = {k: tuple(dag[k].shape) for k in dag.keys()}
     info_in = {k: list(v.shape) for k, v in ins.items()}
+    info_dt = {k: str(v.dtype) for k, v in ins.items()}
     for combo in itertools.product(*choices):
         pol = {id(e): c for e, c in zip(es, combo)}
 
@@ -363,7 +373,7 @@ def distribute_job(prog: str, seed: int = 0, gen_tier: str = "quick") -> JobOut:
             continue
         obs.append(RewriteOb(f"{prog}/distribute[{label}]", {k: dag[k] for k in dag.keys()},
                              {k: new[k] for k in dag.keys()}, shapes,
-                             {"program": prog, "policy": label, "einsums": len(es), "inputs": info_in,
+                             {"program": prog, "policy": label, "einsums": len(es), "inputs": info_in, "input_dtypes": info_dt,
                               "expression": getattr(build, "text", "hand-written"),
                               "encoding": "z3 reals, uninterpreted inputs, x/y as x*inv(y), reductions unrolled"},
                              xcheck=(gen_tier == "thorough")))
@@ -393,7 +403,8 @@ def nobroadcast_job(prog: str, seed: int = 0, gen_tier: str = "quick") -> JobOut
     sides.append(Side(f"{prog}/no-broadcasts/result-is-broadcast-free", bfree))
     ob = RewriteOb(f"{prog}/no-broadcasts", {k: dag[k] for k in dag.keys()}, {k: new[k] for k in dag.keys()}, shapes,
                    {"program": prog, "rewrite": "rewrite_einsums_with_no_broadcasts",
-                    "inputs": {k: list(v.shape) for k, v in ins.items()}})
+                    "inputs": {k: list(v.shape) for k, v in ins.items()},
+                    "input_dtypes": {k: str(v.dtype) for k, v in ins.items()}})
     return JobOut(obs=[ob], sides=sides)
 
 
